@@ -97,8 +97,10 @@ def gen_history(rng, uni, length, illformed=0.15):
             k = rng.random()
             rhs = dict(kind="arr", j=j) if k < 0.5 else dict(kind="num", c=rng.randint(-2, 2)) if k < 0.7 else dict(kind="nd", bad=bad, seed=rng.randrange(10 ** 6))
             ops.append(dict(op="set", i=i, keyseed=rng.randrange(10 ** 6), rhs=rhs, ell=rng.random() < 0.35))
-        elif r < 0.95:
+        elif r < 0.93:
             ops.append(dict(op="set_values", i=i, bad=bad, seed=rng.randrange(10 ** 6)))
+        elif r < 0.95:
+            ops.append(dict(op="set_values_arr", i=i, j=j))
         else:
             ops.append(dict(op="rawfill", i=i, c=rng.randint(5, 9)))
     return ops
@@ -162,6 +164,8 @@ def resolve(op, uni, pool):
                     shp = shp[::-1] if len(set(shp)) > 1 else shp + [1]
                 m = int(np.prod(shp)) if shp else 1
                 o["rhs"] = dict(kind="nd", shape=shp, values=[rr.randint(-3, 3) for _ in range(m)])
+    if kind == "set_values_arr":
+        o["j"] = o["j"] % n
     if kind == "set_values":
         rr = _random.Random(o["seed"])
         shp = list(a.dims.shape)
@@ -177,12 +181,15 @@ def resolve(op, uni, pool):
 def snapshot(pool):
     arrs = []
     for a in pool:
-        v = np.asarray(a.values)
+        v = a.values
+        if not isinstance(v, np.ndarray):     # something that is not an ndarray ended up as the values attribute
+            arrs.append(dict(dims=obs_dims(a.dims), shape=["not-an-ndarray:" + type(v).__name__], values=[]))
+            continue
         arrs.append(dict(dims=obs_dims(a.dims), shape=list(v.shape), values=observe_values(v, snap=True)))
     share, dshare = [], []
     for i in range(len(pool)):
         for j in range(i + 1, len(pool)):
-            if np.shares_memory(np.asarray(pool[i].values), np.asarray(pool[j].values)):
+            if isinstance(pool[i].values, np.ndarray) and isinstance(pool[j].values, np.ndarray) and np.shares_memory(pool[i].values, pool[j].values):
                 share.append([i, j])
             if pool[i].dims is pool[j].dims or pool[i].dims.dim_list is pool[j].dims.dim_list:
                 dshare.append([i, j])
@@ -229,6 +236,9 @@ def execute(uni, cop, pool):
         return None
     if k == "set_values":
         a.set_values(np.array([float(v) for v in cop["values"]]).reshape(tuple(cop["shape"])))
+        return None
+    if k == "set_values_arr":
+        a.set_values(pool[cop["j"]])       # ill-formed: a FlodymArray instead of an ndarray / number
         return None
     if k == "rawfill":
         a.values[...] = cop["c"]
@@ -305,6 +315,8 @@ def cq_hop(uni, c):
         return f"(HSet {i} {cq_key(uni, c['key'])} {rr})"
     if k == "set_values":
         return f"(HSetValues {i} {cq_nd(c['shape'], c['values'])})"
+    if k == "set_values_arr":
+        return f"(HSetValuesArr {i} {cq_nat(c['j'])})"
     if k == "rawfill":
         return f"(HRawFill {i} {cq_Q(Fraction(c['c']))})"
     raise ValueError(k)
